@@ -172,6 +172,17 @@ def make_case(ctx, g):
     flags = set()
     b = DocBuilder(g, w, repeat_id=0.6, malformed=0.0, anon=0.3, multi=0.1)
     d, scopes = b.random_document(n_records=g.rng.randint(2, 9))
+    if g.chance(0.3):
+        # history: a bundle is asked for names that so far exist only in the document (a lookup must not change anything),
+        # then gets a record of its own under such a name
+        dobj = w.conts[d]
+        named = [r for r in dobj.records if r.identifier is not None]
+        for bh in all_containers(w, [d])[1:]:
+            for r in g.rng.sample(named, min(2, len(named))):
+                w.get_record(bh, g.choice([r.identifier, str(r.identifier), r.identifier.uri]))
+                if g.chance(0.7):
+                    w.new_record(bh, r.get_type().localpart, r.identifier, b.other_attrs(bh, n=1))
+                flags.add("lookup-before-unified")
     targets = all_containers(w, [d]) if g.chance(0.5) else [d]
     for c in targets:
         check_unified(ctx, w, c, fails, flags)
